@@ -329,3 +329,271 @@ def _t_numelem(st, a):
 def _t_split(st, a):
     n, r = _T(st, a).split()
     return f"ok {rat(n)} {show_items(r.items)}"
+
+
+# ---- registry and quantities ---------------------------------------------
+
+from fractions import Fraction as _F  # noqa: E402
+from quantity import Quantity, QuantityMeta, Unit  # noqa: E402
+
+
+def _classes():
+    return [b[0] for b in QuantityMeta._registry._item_list]
+
+
+def _cls(st, name):
+    for c in _classes():
+        if c.__name__ == name:
+            return c
+    raise KeyError(name)
+
+
+def reg_items(st, s):
+    if s == "-":
+        return []
+    out = []
+    for part in s.split(";"):
+        el, _, e = part.rpartition("^")
+        if el.startswith("n:"):
+            out.append((to_dec_or_frac(parse_rat(el[2:])), int(e)))
+        elif el.startswith("c:"):
+            out.append((_cls(st, el[2:]), int(e)))
+        elif el.startswith("u:"):
+            out.append((Unit(el[2:]), int(e)))
+        else:
+            raise KeyError(el)
+    return out
+
+
+def opt_str(s):
+    return None if s == "-" else ("" if s == "<empty>" else s)
+
+
+def amount_of(tok):
+    if tok.startswith("F:"):
+        return parse_rat(tok[2:])
+    if tok.startswith("D:"):
+        v, p = tok[2:].split(":")
+        d = Decimal(_F(int(v), 10 ** int(p)), int(p))
+        assert d._value == int(v) and d._precision == int(p)
+        return d
+    return to_dec_or_frac(parse_rat(tok))
+
+
+def num_str(x):
+    if isinstance(x, float):
+        return f"FLOAT:{x!r}"
+    if not isinstance(x, (Decimal, _F, int)):
+        return f"?{type(x).__name__}"
+    return rat(x)
+
+
+def show_qty(q):
+    assert type(q.amount) in (Decimal, _F), type(q.amount)
+    return f"{num_str(q.amount)}@{q.unit.symbol}:{type(q).__name__}"
+
+
+def show_val(v):
+    if isinstance(v, Quantity):
+        return "qty " + show_qty(v)
+    if isinstance(v, tuple):
+        f, u = v
+        return f"pair {num_str(f)} {u.symbol if u is not None else 'none'}"
+    if isinstance(v, bool):
+        return "true" if v else "false"
+    return "num " + num_str(v)
+
+
+def qty_of(tok):
+    a, _, u = tok.rpartition("@")
+    unit = Unit(u)
+    return unit.qty_cls(amount_of(a), unit)
+
+
+@op("decl_class")
+def _decl_class(st, name, cdef, rsym, rname, quantum):
+    kw = {}
+    if cdef != "-":
+        kw["define_as"] = Term(reg_items(st, cdef))
+    if rsym != "-":
+        kw["ref_unit_symbol"] = opt_str(rsym)
+    if rname == "1":
+        kw["ref_unit_name"] = "Name of " + name
+    if quantum != "-":
+        kw["quantum"] = to_dec_or_frac(parse_rat(quantum))
+    cls = QuantityMeta(name, (Quantity,), {}, **kw)
+    return "ok " + cls.__name__
+
+
+@op("new_unit")
+def _new_unit(st, cls, sym, kind, *rest):
+    c = _cls(st, cls)
+    symbol = opt_str(sym)
+    if kind == "none":
+        d = None
+    elif kind == "other":
+        d = "not a definition"
+    elif kind == "qty":
+        with dflt_mode(rest[2]):
+            unit = Unit(rest[1])
+            d = unit.qty_cls(amount_of(rest[0]), unit)
+    elif kind == "term":
+        d = Term(reg_items(st, rest[0]))
+    u = c.new_unit(symbol, None, d)
+    return "ok " + u.symbol
+
+
+@op("derive_unit")
+def _derive_unit(st, cls, us, sym):
+    c = _cls(st, cls)
+    units = [] if us == "-" else [Unit(x) for x in us.split(",")]
+    symbol = opt_str(sym)
+    u = c.derive_unit_from(*units, symbol=symbol)
+    return "ok " + u.symbol
+
+
+def _opt_rat(x):
+    return "none" if x is None else rat(x)
+
+
+@op("observe")
+def _observe(st):
+    syms = sorted(f"{sym}={u.qty_cls.__name__}:{_opt_rat(u._equiv)}"
+                  for sym, u in quantity._SYMBOL_UNIT_MAP.items())
+    classes = []
+    for c in _classes():
+        us = ",".join(u.symbol for u in c.units())
+        assert [u.symbol for u in c.units()] == list(c)
+        ref = c.ref_unit.symbol if c.ref_unit is not None else "none"
+        classes.append(f"{c.__name__}[{us}]ref={ref} q={_opt_rat(c.quantum)}")
+    return "ok " + " ".join(syms) + " | " + " ".join(classes)
+
+
+@op("unit_info")
+def _unit_info(st, sym):
+    u = Unit(sym)
+    assert quantity._SYMBOL_UNIT_MAP[sym] is u
+    assert u.qty_cls.get_unit_by_symbol(sym) is u and sym in u.qty_cls
+    return (f"ok cls={u.qty_cls.__name__} equiv={_opt_rat(u._equiv)} "
+            f"base={_b(u.is_base_unit())} ref={_b(u.is_ref_unit())} "
+            f"quantum={_opt_rat(u.quantum)}")
+
+
+@op("uop")
+def _uop(st, o, u, v):
+    a, b = Unit(u), Unit(v)
+    return "ok " + show_val(a * b if o == "mul" else a / b)
+
+
+@op("upow")
+def _upow(st, u, n, d):
+    with dflt_mode(d):
+        return "ok " + show_val(Unit(u) ** int(n))
+
+
+@op("ueq")
+def _ueq(st, u, v):
+    a, b = Unit(u), Unit(v)
+    r = a == b
+    assert r == (b == a) and (a != b) == (not r)
+    return "ok " + _b(r)
+
+
+@op("q_mk")
+def _q_mk(st, cls, a, u, d):
+    with dflt_mode(d):
+        c = Quantity if cls == "-" else _cls(st, cls)
+        return "ok qty " + show_qty(c(amount_of(a), Unit(u)))
+
+
+@op("q_conv")
+def _q_conv(st, a, u, d):
+    with dflt_mode(d):
+        return "ok qty " + show_qty(qty_of(a).convert(Unit(u)))
+
+
+@op("q_equiv")
+def _q_equiv(st, a, u, d):
+    with dflt_mode(d):
+        r = qty_of(a).equiv_amount(Unit(u))
+        return "ok " + ("none" if r is None else num_str(r))
+
+
+import operator as _op  # noqa: E402
+
+_BIN = {"eq": _op.eq, "ne": _op.ne, "lt": _op.lt, "le": _op.le, "gt": _op.gt,
+        "ge": _op.ge, "add": _op.add, "sub": _op.sub, "mul": _op.mul,
+        "div": _op.truediv}
+
+
+@op("q_bin")
+def _q_bin(st, o, a, b, d):
+    with dflt_mode(d):
+        qa, qb = qty_of(a), qty_of(b)
+        before = (qa.amount, qa.unit, qb.amount, qb.unit)
+        r = _BIN[o](qa, qb)
+        assert before == (qa.amount, qa.unit, qb.amount, qb.unit)
+        if isinstance(r, bool):
+            return "ok " + _b(r)
+        return "ok " + show_val(r)
+
+
+@op("q_unit")
+def _q_unit(st, o, a, u, d):
+    with dflt_mode(d):
+        qa, unit = qty_of(a), Unit(u)
+        if o == "mul":
+            r = qa * unit
+        elif o == "rmul":
+            r = unit * qa
+        elif o == "div":
+            r = qa / unit
+        else:
+            r = unit / qa
+        return "ok " + show_val(r)
+
+
+@op("q_num")
+def _q_num(st, o, a, k, d):
+    with dflt_mode(d):
+        qa = qty_of(a)
+        kk = to_dec_or_frac(parse_rat(k))
+        if o == "mul":
+            r1, r2 = qa * kk, kk * qa
+            assert show_val(r1) == show_val(r2)
+            r = r1
+        elif o == "div":
+            r = qa / kk
+        elif o == "rdiv":
+            r = kk / qa
+        elif o == "neg":
+            r = -qa
+        elif o == "abs":
+            r = abs(qa)
+        else:
+            try:
+                r = qa ** int(parse_rat(k))
+            except ValueError as exc:
+                # decimalfp: Decimal(0) ** -1 raises ValueError('math domain
+                # error'), Fraction(0) ** -1 ZeroDivisionError; canonicalised
+                if "math domain" in str(exc):
+                    raise ZeroDivisionError from None
+                raise
+        return "ok " + show_val(r)
+
+
+@op("q_quantize")
+def _q_quantize(st, a, quant, m, d):
+    with dflt_mode(d):
+        return "ok qty " + show_qty(qty_of(a).quantize(qty_of(quant),
+                                                      mode_arg(m)))
+
+
+@op("q_round")
+def _q_round(st, a, n, d):
+    with dflt_mode(d):
+        qa = qty_of(a)
+        r = round(qa, int(n))
+        if int(n) == 0:
+            assert show_qty(round(qa)) == show_qty(r)
+        return "ok qty " + show_qty(r)
